@@ -373,7 +373,7 @@ def run_trees(seeds, corpus=()):
             trees.append((tree, case_dir, [r for r in tests if not r.endswith("conftest.py")]))
         obs, todo = {}, list(cases)
         while todo:
-            got, _ = core.run_h1(h1, todo, "C14_scan")
+            got, _ = core.run_h1(h1, todo, "C14_scan", allow_hang=True)
             obs.update(got)
             # the harness stops at the first case that outruns its watchdog (60 s)
             todo = [c for c in todo if c["id"] not in got]
